@@ -79,8 +79,12 @@ def queries(F, S, t2s, ths, full=True):
         for name in METRICS:
             ident = ident and np.array_equal(getattr(F, name)(th), getattr(S, name)(th), equal_nan=True)
             try:
-                a = getattr(F, "threshold_at_" + name)(np.array([0.1, 0.5, 0.9]))
-                b = getattr(S, "threshold_at_" + name)(np.array([0.1, 0.5, 0.9]))
+                tg = np.array([-0.5, 0.0, 0.1, 0.25, 0.5, 2 / 3, 0.9, 1.0, 1.5])
+                a = getattr(F, "threshold_at_" + name)(tg)
+                b = getattr(S, "threshold_at_" + name)(tg)
+                for meth in ("lower", "higher"):
+                    ident = ident and np.array_equal(getattr(F, "threshold_at_" + name)(tg, method=meth),
+                                                     getattr(S, "threshold_at_" + name)(tg, method=meth))
                 ident = ident and np.array_equal(a, b)
             except ValueError:
                 pass
